@@ -1079,7 +1079,7 @@ impl Prop for C11 {
         let grid = Space { name: "grid", size: 216, exhaustive: true, chunk: 54, case_timeout_s: 30.0, what: "three tasks scheduled from global scope, every triple of times from {1, 1.5, 2, 2.999, 3, 4.25} (one task is a 3-step chain)" };
         match tier {
             Tier::Quick => vec![grid, Space { name: "rand", size: 10000, exhaustive: false, chunk: 100, case_timeout_s: 30.0, what: "generated task multisets (global / dsp / task origins, chains, spawns, equal and fractional times) x run lengths" }],
-            Tier::Thorough => vec![grid, Space { name: "rand", size: 60_000, exhaustive: false, chunk: 400, case_timeout_s: 30.0, what: "generated task multisets (global / dsp / task origins, chains, spawns, equal and fractional times) x run lengths" }],
+            Tier::Thorough => vec![grid, Space { name: "rand", size: 200_000, exhaustive: false, chunk: 400, case_timeout_s: 30.0, what: "generated task multisets (global / dsp / task origins, chains, spawns, equal and fractional times) x run lengths" }],
         }
     }
     fn run(&self, space: &str, index: u64, g: &mut Gen, cx: &Cx) -> CaseResult {
